@@ -69,6 +69,8 @@ struct childres {		/* result slot for fork-per-case */
 };
 
 static struct wstat *W;		/* shared: one per worker */
+static volatile uint64_t *g_total_fails;	/* shared: failures recorded so far by all workers */
+#define STOP_AFTER_FAILS 40		/* a broken tree fails everywhere: no point in grinding through the whole budget */
 static struct childres *CR;	/* shared: one per worker */
 static int g_workers = 16, g_thorough, g_ns_ok;
 static uint64_t g_seed = 1;
@@ -315,6 +317,7 @@ static void record(struct wstat *w, uint64_t index, const struct verif_report *r
 		if (w->nhash < HASH_CAP) w->hashes[w->nhash++] = r->ophash;
 		if (w->nsample < MAX_SAMPLES) w->sample[w->nsample++] = index;
 	}
+	if (r->fail) __sync_fetch_and_add(g_total_fails, 1);
 	if (r->fail && w->nfails < MAX_FAILS) {
 		struct failrec *f = &w->fails[w->nfails];
 		f->index = index;
@@ -348,6 +351,7 @@ static void worker_main(int k, uint64_t start, uint64_t total, uint64_t nenum, d
 	for (uint64_t i = start; i < total + nenum; i += g_workers) {
 		uint64_t index = i < nenum ? (i | ENUM_BIT) : (i - nenum);
 		if (deadline > 0 && now_s() > deadline && i >= nenum) break;
+		if (*g_total_fails >= STOP_AFTER_FAILS) break;
 		size_t n = get_case(index, buf, verif_max_size);
 		struct verif_report r;
 		memset(&r, 0, sizeof r);
@@ -598,6 +602,7 @@ int main(int argc, char **argv)
 	W = mmap(NULL, sizeof(struct wstat) * g_workers, PROT_READ | PROT_WRITE, MAP_SHARED | MAP_ANONYMOUS | MAP_NORESERVE, -1, 0);
 	CR = mmap(NULL, sizeof(struct childres) * g_workers, PROT_READ | PROT_WRITE, MAP_SHARED | MAP_ANONYMOUS, -1, 0);
 	if (W == MAP_FAILED || CR == MAP_FAILED) { perror("mmap"); return 2; }
+	g_total_fails = mmap(NULL, 4096, PROT_READ | PROT_WRITE, MAP_SHARED | MAP_ANONYMOUS, -1, 0);
 
 	pid_t pids[MAX_WORKERS];
 	int crashes = 0;
